@@ -20,7 +20,7 @@ RULE = ("(a) every command class is constructed over comm 0..255, counts 1..125,
         "command class, argument class) tuples + distinct transaction ids seen")
 ASSUMPTIONS = ["the decoders in refcodec follow the Modbus specification (big-endian fields, CRC lo-hi, MBAP length = bytes "
                "that follow) and the AA55 framing stated in the property"]
-MUST = ["connect_with_family_and_comm_addr", "clock_writes_checked", "named_reads_of_calculated_ids", "answers_with_foreign_transaction_id", "dt_export_limit_by_model_line", "es_setter_sequences_decoded", "auto_detected_object_frames", "aa55_over_both_transports", "overlapping_polls_txids", "rmw_with_padded_read_answers", "named_single_reads", "dt_fallback_model_query", "tcp_connect_failures_between_requests", "tcp_session_dropped_between_requests", "tcp_session_dropped_after_every_request", "contract_eval_create_modbus_rtu_request", "contract_eval_create_modbus_tcp_request",
+MUST = ["concurrent_callers_served_their_own_operation", "connect_with_family_and_comm_addr", "clock_writes_checked", "named_reads_of_calculated_ids", "answers_with_foreign_transaction_id", "dt_export_limit_by_model_line", "es_setter_sequences_decoded", "auto_detected_object_frames", "aa55_over_both_transports", "overlapping_polls_txids", "rmw_with_padded_read_answers", "named_single_reads", "dt_fallback_model_query", "tcp_connect_failures_between_requests", "tcp_session_dropped_between_requests", "tcp_session_dropped_after_every_request", "contract_eval_create_modbus_rtu_request", "contract_eval_create_modbus_tcp_request",
         "contract_eval_create_modbus_rtu_multi_request", "contract_eval_create_modbus_tcp_multi_request",
         "txid_wraps", "negative_values", "aa55_negative_values", "wire_ops_matched", "wire_retransmissions",
         "classes_constructed", "protocol_object_commands"]
@@ -401,6 +401,57 @@ def concurrent_and_padded(spec, part):
         for b in sim.bad:
             bad(part, "tcp", "undecodable-request", f"overlapping polls: {b[1]}", case)
         part.count("overlapping_polls_txids")
+    # (a2) two callers ask one object for DIFFERENT things at the same time while transmissions get lost: whatever the retransmission
+    #      bookkeeping does, every frame on the wire is one of the two operations and each caller that is served was served ITS operation
+    for port in (8899, 502):
+        for ka in (False, True):
+            for lost in ((1,), (1, 2), (2,), (1, 3), (1, 2, 3)):
+                for gap in (0.0, 0.2, 1.1):
+                    sim = sims.ModbusSim("inv0")
+                    for a_ in range(0x1000, 0x1010):
+                        sim.regs[a_] = 0x1000 + (a_ & 0xF)
+                    for a_ in range(0x2000, 0x2010):
+                        sim.regs[a_] = 0x2000 + (a_ & 0xF)
+                    seen_n = {"n": 0}
+                    orig = sim.handle
+
+                    def handle(req, kind, _o=orig, _s=seen_n, _lost=lost):
+                        _s["n"] += 1
+                        return None if _s["n"] in _lost else _o(req, kind)
+                    sim.handle = handle
+                    outs = {}
+
+                    async def flow(loop):
+                        inv = g.ET("inv0", port, 0, 1, 3)
+                        inv.set_keep_alive(ka)
+
+                        async def one(name, reg, count, delay):
+                            await asyncio.sleep(delay)
+                            try:
+                                r = await inv._read_from_socket(inv._read_command(reg, count))
+                                outs[name] = r.response_data().hex()
+                            except Exception as e:      # noqa
+                                outs[name] = type(e).__name__
+                        await asyncio.gather(one("A", 0x1000, 1, 0.0), one("B", 0x2000, 2, gap))
+                    run = engine.run_custom({("inv0", port): sim}, flow, vtime_cap=600, tx_cap=600)
+                    part.evaluations += 1
+                    framing = "rtu" if port == 8899 else "tcp"
+                    case = {"concpad": True}
+                    ctx = f"port {port} keep_alive={ka}: caller A reads 0x1000 x1, caller B (started {gap} s later) reads 0x2000 x2, transmissions {lost} lost"
+                    if run.stop or run.error is not None:
+                        bad(part, framing, "named-reads-failed", f"{ctx}: {run.stop or repr(run.error)}", case)
+                        continue
+                    ops_seen = [(r[2]["kind"], r[2]["reg"], r[2].get("count")) for r in sim.log]
+                    foreign = [o for o in ops_seen if o not in (("read", 0x1000, 1), ("read", 0x2000, 2))]
+                    if foreign or sim.bad:
+                        bad(part, framing, "wire-operation-mismatch", f"{ctx}: frames on the wire that are neither operation: {foreign[:3]} {[b[1] for b in sim.bad][:2]}", case)
+                    for name, op, want in (("A", ("read", 0x1000, 1), "1000"), ("B", ("read", 0x2000, 2), "20002001")):
+                        if outs.get(name) == want and op not in ops_seen:
+                            bad(part, framing, "wire-operation-mismatch", f"{ctx}: caller {name} was served although {op} never went out; wire: {ops_seen}", case)
+                        elif outs.get(name) not in (want, "RequestFailedException"):
+                            bad(part, framing, "wire-operation-mismatch", f"{ctx}: caller {name} got {outs.get(name)!r} (its registers hold {want}); wire: {ops_seen}", case)
+                        elif outs.get(name) == want:
+                            part.count("concurrent_callers_served_their_own_operation")
     for fam, port, t_, r_ in (("ET", 502, 2, 2), ("DT", 502, 3, 1), ("ET", 8899, 2, 3), ("DT", 8899, 1, 2)):
         sim = models.family_sim(fam)
         got = {}
